@@ -223,7 +223,7 @@ func appBinary(t *testing.T, prop string) {
 			default:
 			}
 			if time.Now().After(deadline) {
-				rt.Fatalf("the binary does not answer on %s: %s", addr, clipS(logs.String()))
+				rt.Fatalf("positive control: the binary does not answer on %s: %s", addr, clipS(logs.String()))
 			}
 			time.Sleep(20 * time.Millisecond)
 		}
